@@ -21,7 +21,7 @@ import numpy as np
 from mc import holders as H
 from mc import refmodel as rm
 from mc import space
-from mc.engine import digest, exc_symptom, short_tb
+from mc.engine import CaseTimeout, digest, exc_symptom, short_tb
 
 ID = "C13"
 RULE = ("sampler: environment explorer - numpy.random.uniform/choice/poisson are scripted for one execution; "
@@ -263,15 +263,76 @@ def _pattern_classes(n):
 EXPLORE = {"quick": {4: (5, 8), 6: (4, 6)}, "thorough": {4: (5, 12), 6: (5, 8), 8: (4, 6)}}
 
 
+SLICE = 2500
+
+
+def _estimate_scripts(c):
+    """Rough size of the script set of a sampler batch (used only to cut batches into slices)."""
+    shape, pat, a, op = c["shape"], c["pat"], c["args"], c["op"]
+    size, nnz = prod(shape), sum(pat)
+    nzr = size - nnz
+    ar = size + (1 if c["boundary"] else 0)
+    mc, ll = c["max_complete"], c["long_len"]
+
+    def count(n):
+        if n <= mc:
+            return ar ** n
+        per = 1 + n * (ar - 1) + (n * (n - 1) // 2 * (ar - 1) ** 2 if n <= ll else 0)
+        return per * (2 + size)
+
+    def zdraws(k, repl=True):
+        if nzr == 0 or k == 0:
+            return 0
+        nt = ceil(k * size / nzr)
+        if not repl:
+            if nt >= size:
+                return 0
+            nt = ceil(size * np.log(1 / (1 - nt / size)))
+        return ceil(1.1 * nt)
+
+    def ndraws(k):
+        return 0 if (k == nnz or nnz == 0) else k
+
+    def pair(x, dn, dz):
+        return (dn, dz) if x is None else (tuple(x) if isinstance(x, list) else (x, x))
+
+    if op == "uniform":
+        return count(a["n"])
+    if op == "nonzeros":
+        return count(ndraws(a["n"]))
+    if op == "zeros":
+        return count(zdraws(a["n"], a["repl"]))
+    if op == "stratified":
+        return count(ndraws(a["nn"]) + zdraws(a["nz"]))
+    if op == "semistrat":
+        return count(ndraws(a["nn"]) + a["nz"])
+    sparse = c["holder"] == "sptensor"
+    kind = (a["fs"] if a["which"] == "function" else a["gs"]) or ("STRATIFIED" if sparse else "UNIFORM")
+    cnt = a["fn"] if a["which"] == "function" else a["gn"]
+    if kind == "UNIFORM" and sparse and a["which"] == "gradient":
+        pm = c["pois_max"]
+        return sum(count(ndraws(i) + zdraws(j)) for i in range(pm + 1) for j in range(pm + 1))
+    if kind == "UNIFORM":
+        return count(size if cnt is None else cnt)
+    nn, nz = pair(cnt, nnz, min(nnz, nzr))
+    return count(ndraws(nn) + (zdraws(nz) if kind == "STRATIFIED" else nz))
+
+
 def _sampler_cases(tier, seed):
     th = tier == "thorough"
     out = []
 
     def add(op, shape, pat, args, holder="sptensor", order="fwd", boundary=False):
-        out.append({"check": "sampler", "op": op, "shape": list(shape), "pat": list(pat), "vseed": seed,
-                    "holder": holder, "order": order, "args": args, "boundary": boundary,
-                    "pois_max": 3 if th else 2, "max_complete": EXPLORE[tier][prod(shape)][0],
-                    "long_len": EXPLORE[tier][prod(shape)][1]})
+        c = {"check": "sampler", "op": op, "shape": list(shape), "pat": list(pat), "vseed": seed,
+             "holder": holder, "order": order, "args": args, "boundary": boundary,
+             "pois_max": 3 if th else 2, "max_complete": EXPLORE[tier][prod(shape)][0],
+             "long_len": EXPLORE[tier][prod(shape)][1]}
+        # big batches are cut into slices scripts[i::k] (load balancing only; the union is the whole batch)
+        k = max(1, ceil(_estimate_scripts(c) / SLICE))
+        if k == 1:
+            out.append(c)
+        else:
+            out.extend(dict(c, slice=[i, k]) for i in range(k))
 
     shapes = [(2, 2), (2, 3)] + ([(2, 2, 2)] if th else [])
     for shape in shapes:
@@ -524,7 +585,7 @@ def _execute(case, script, policy, expect_sig):
     with sr:
         try:
             out = thunk()
-        except (ScriptDiverged, UnscriptedDraw):
+        except (ScriptDiverged, UnscriptedDraw, CaseTimeout):
             raise
         except Exception as e:  # noqa: BLE001
             out = e
@@ -731,7 +792,8 @@ def _observation(out, log):
 
 def _run_sampler(case, ctx):
     ncells = prod(case["shape"])
-    ctx.state()
+    if case.get("slice", [0, 1])[0] == 0:
+        ctx.state()
 
     def run(script, policy, sig):
         return _execute(case, script, policy, sig)[1]
@@ -743,10 +805,13 @@ def _run_sampler(case, ctx):
             scripts = enumerate_scripts(run, ncells, max_complete=case.get("max_complete", 5),
                                         long_len=case.get("long_len", 10 ** 9), long_dev=1)
             scripts = list(scripts)
+            if "slice" in case:
+                scripts = scripts[case["slice"][0]::case["slice"][1]]
         except (ScriptDiverged, UnscriptedDraw) as e:
             ctx.fail("harness", "script_diverged", f"{type(e).__name__}: {e}", case=case)
             return
     nontriv = False
+    listed = {}
     for script, sig, mode in scripts:
         ctx.tick()
         ctx.count("sampler_exec_" + mode)
@@ -775,10 +840,18 @@ def _run_sampler(case, ctx):
                 ctx.fail("harness", "nondeterministic_replay", f"script {script}", case=dict(case, script=list(script)))
                 continue
             # derived fields (for known-finding predicates): zeros requested / draws that hit a true zero
-            sub = dict(case, script=list(script), req_nz=_check_sample.last["req_nz"],
-                       zero_hits=_check_sample.last["zero_hits"])
+            last = _check_sample.last
+            sub = dict(case, script=list(script), req_nz=last["req_nz"], zero_hits=last["zero_hits"])
+            sub.pop("slice", None)
+            short = last["req_nz"] is not None and last["zero_hits"] < last["req_nz"]
             for (op, sym, detail, variant) in fails:
-                ctx.fail(op, sym, detail, variant=variant, case=sub)
+                # at most 5 records per batch and (class, shortfall or not); the rest is only counted
+                key = (op, sym, variant, short)
+                listed[key] = listed.get(key, 0) + 1
+                if listed[key] <= 5:
+                    ctx.fail(op, sym, detail, variant=variant, case=sub)
+                else:
+                    ctx.count("sampler_failures_counted_not_listed")
     if nontriv:
         ctx.nontriv()
     if case.get("boundary"):
@@ -899,6 +972,8 @@ def _one_solve(c, ctx, ttb):
             from pyttb.gcp.handles import Objectives
 
             M, Minit, info = ttb.gcp_opt(data, c["rank"], Objectives[loss], opt, init=K0, sampler=smp, printitn=0)
+    except CaseTimeout:
+        raise
     except ValueError as e:
         if "Infinite gradient" in str(e):
             ctx.inadm()
@@ -938,8 +1013,8 @@ def _one_solve(c, ctx, ttb):
         opt2 = _make_opt(opt_name, **kw)
         K1 = ttb.ktensor([m.copy() for m in K0f]).normalize("all")
         M2, info2 = opt2.solve(K1, data, f, g, lb, FullSampler(shape, X))
-        same = all(np.array_equal(a, b) for a, b in zip(ret_f, M2.factor_matrices)) and \
-            np.array_equal(info["f_est_trace"], info2["f_est_trace"])
+        same = all(np.array_equal(a, b, equal_nan=True) for a, b in zip(ret_f, M2.factor_matrices)) and \
+            np.array_equal(info["f_est_trace"], info2["f_est_trace"], equal_nan=True)
         if not same:
             fail("wrong_value", "gcp_opt(objective enum) differs from solve() with the handles of fg_setup.setup")
         ctx.outcome([ret_f, np.asarray(info["f_est_trace"])])
@@ -1055,6 +1130,8 @@ def _one_lbfgsb(c, ctx, ttb):
         else:
             M, Minit, info = ttb.gcp_opt(data, c["rank"], Objectives[loss], opt, init=K0,
                                          mask=None if W is None else ttb.tensor(W.copy()), printitn=0)
+    except CaseTimeout:
+        raise
     except Exception as e:  # noqa: BLE001
         ctx.fail(op, exc_symptom(e), short_tb(e), variant=variant, case=c)
         return
@@ -1170,6 +1247,8 @@ def _run_reuse(c, ctx):
     try:
         cb_f = _UserCallback() if cb is not None else None
         want, _ = _reuse_solve(_reuse_make_opt(c, cb_f), c, word[-1], len(word) - 1, ttb)
+    except CaseTimeout:
+        raise
     except Exception as e:  # noqa: BLE001
         fresh_exc = e
     opt = _reuse_make_opt(c, cb)
@@ -1179,6 +1258,8 @@ def _run_reuse(c, ctx):
         calls0 = cb.calls if cb is not None else 0
         try:
             got, info = _reuse_solve(opt, c, p, pos, ttb)
+        except CaseTimeout:
+            raise
         except Exception as e:  # noqa: BLE001
             if pos == len(word) - 1 and fresh_exc is not None and type(fresh_exc) is type(e):
                 ctx.inadm()
